@@ -34,6 +34,31 @@ CHECKS = {
     "C11": ("explicit-state BFS to fixpoint incl. refused requests; every accessor evaluated in every state vs. model",
             "Duplicate adds, setters on present/absent/full, and all presence/len/lookup/list/getter accessors in "
             "every reachable state.", "3 C11"),
+    "C12": ("bounded-exhaustive enumeration of don't-care byte assignments on the real decoder (per region, all regions, per byte)",
+            "Every builder state, reference-built files and the 8 capture blocks: each don't-care region alone, all at once "
+            "and (small blocks, N=2 files) each single byte, with 4 fills incl. a cp1252-undefined one; decoded content "
+            "must re-encode to the canonical bytes.", "3 C12"),
+    "C13": ("deviation-bounded exhaustive string/byte enumeration on the real field codec vs. an own cp1252 table",
+            "All strings within <=1 (all widths) / <=2 (small widths) deviations from 'a'*L over a 258-symbol alphabet, all "
+            "256^w reads for w<=2, first-NUL sweeps for wide fields, boundary labels through every block field and the "
+            "entry comment.", "3 C13"),
+    "C14": ("exhaustive pair enumeration: each base block vs. itself / rebuilt / round trip / every single-site mutation",
+            "Equality must be true for the three equal partners and false (both directions, also on decoded forms) for "
+            "every single-site mutation; 12 file pairs for Tdf equality.", "3 C14"),
+    "C15": ("explicit-state BFS (depth-bounded) over real block objects vs. a list-of-pairs model",
+            "All add/remove/bulk/assign/round-trip histories to depth 4 (6) on the three channel-mapped classes from "
+            "empty, constructor-filled and decoded starts.", "3 C15"),
+    "C16": ("explicit-state BFS to fixpoint over real block objects; all lists <=3 over {good, wrong-length, non-track}",
+            "Every add / tracks-assignment menu entry in every reachable (class, frame count, start, track count) state; "
+            "refusals must leave the block untouched, acceptances install exactly the list.", "3 C16"),
+    "C18": ("exhaustive enumeration of label tuples x key menu on real blocks vs. a plain list model",
+            "156 label tuples (duplicates, empty, case, blanks) x 4 classes x built/decoded x ~35 keys.", "3 C18"),
+    "C19": ("exhaustive enumeration of argument shapes/kinds per validated constructor argument; 27 000 coupled triples",
+            "Every rank 0-3 shape with extents 0..4 x 6 dtypes + 9 non-array kinds for 22 arguments; accepted objects must "
+            "not be mis-sized.", "3 C19"),
+    "C20": ("explicit-state BFS (depth-bounded) over interleavings on 2-3 instances, states rebuilt by replay, fresh-instance probe",
+            "All interleavings of construct / construct-with-list / decode / add / remove / edit over two (three) slots "
+            "per class; each slot must equal its own model after every step and a fresh instance must be empty.", "3 C20"),
 }
 NOT_YET = {}
 
